@@ -42,6 +42,17 @@ impl ParamHandler {
             raw_params,
             count,
         };
+
+        // The raw parameter vector starts from the parameters of the initial isometries, otherwise
+        // the first compute() would overwrite them (and with them the initial rotations) with zeros
+        for i in 0..count {
+            if i != static_i {
+                let p_index = item.p_index(i);
+                let x = *item.params[i].x();
+                item.raw_params.fixed_rows_mut::<6>(p_index * 6).copy_from(&x);
+            }
+        }
+
         item.compute();
         item
     }
